@@ -17,11 +17,14 @@ type CfgOpts struct {
 	Funcs      map[string]m.FuncM
 	Violations int  // percent chance (per opportunity) of writing something non-conforming
 	Layout     bool // random comments / blank lines / multi-byte text
+	Depth      int  // nesting depth of attribute values (0: the default of 2)
 	Simple     bool // only literals and plain references (C19, JSON-expressible)
 	NoDynamic  bool
 	HalfTyped  int  // percent chance that an attribute value is a half-typed fragment
 	Typed      bool // only type-correct expressions (no deliberate mismatches, for-expressions only under iterable types)
 	RefHeavy   bool // prefer references and nested expression forms over literals
+	CallHeavy  bool // a quarter of the nested expressions are calls of known functions
+	KeyHeavy   bool // many object constructors carry an item whose key is no literal name
 }
 
 type cfgWriter struct {
@@ -79,7 +82,7 @@ func (w *cfgWriter) viol() bool { return w.g.Chance(w.o.Violations) }
 
 func (w *cfgWriter) body(b m.BodyM, level int, selfOK bool) {
 	g := w.g
-	env := exprEnv{funcs: w.o.Funcs, self: b.Ext != nil && b.Ext.SelfRefs || selfOK, simple: w.o.Simple, typed: w.o.Typed, refHeavy: w.o.RefHeavy}
+	env := exprEnv{funcs: w.o.Funcs, self: b.Ext != nil && b.Ext.SelfRefs || selfOK, simple: w.o.Simple, typed: w.o.Typed, refHeavy: w.o.RefHeavy, callHeavy: w.o.CallHeavy, keyHeavy: w.o.KeyHeavy}
 	type item struct {
 		kind string
 		name string
@@ -170,7 +173,11 @@ func (w *cfgWriter) body(b m.BodyM, level int, selfOK bool) {
 				}))
 				continue
 			}
-			w.attrLine(level, it.name, g.exprFor(b.Attrs[it.name].Cons, env, 2))
+			vd := 2
+			if w.o.Depth > 0 {
+				vd = w.o.Depth
+			}
+			w.attrLine(level, it.name, g.exprFor(b.Attrs[it.name].Cons, env, vd))
 		case "any":
 			w.attrLine(level, it.name, g.exprFor(b.AnyAttr.Cons, env, 2))
 		case "unknownattr":
@@ -320,11 +327,13 @@ func isIdent(s string) bool {
 // expressions
 
 type exprEnv struct {
-	funcs    map[string]m.FuncM
-	self     bool
-	simple   bool
-	typed    bool
-	refHeavy bool
+	funcs     map[string]m.FuncM
+	self      bool
+	simple    bool
+	typed     bool
+	refHeavy  bool
+	callHeavy bool
+	keyHeavy  bool
 }
 
 func quoteHCL(s string) string {
@@ -424,7 +433,13 @@ func (g G) refText(env exprEnv) string {
 	if env.simple {
 		return base
 	}
-	switch g.Weighted(70, 6, 6, 5, 5, 4, 4) {
+	switch g.Weighted(70, 6, 6, 5, 5, 4, 4, 2, 2, 2) {
+	case 7: // two full splats with a dynamic index key after / between them
+		base += "[*].a[*].b[var.a]"
+	case 8:
+		base += "[*].a[local.a][*].b"
+	case 9:
+		base += "[*].a[*].b[true ? var.ab : 0].c"
 	case 1:
 		base += "[0]"
 	case 2:
@@ -448,6 +463,17 @@ func (g G) exprOfType(t cty.Type, env exprEnv, depth int) string {
 		}
 		return literalText(g, g.Val(concretise(t)), true)
 	}
+	if env.callHeavy && len(env.funcs) > 0 && g.Chance(25) {
+		return g.callText(env, depth-1)
+	}
+	// for expressions (also with the grouping ellipsis) where a collection is expected
+	if (t.IsListType() || t.IsSetType() || t.IsMapType()) && g.Chance(10) {
+		src := g.exprOfType(cty.List(cty.String), env, depth-1)
+		if t.IsMapType() {
+			return "{for k, v in " + src + " : k => " + Pick(g, []string{"v", "var.a", "upper(v)"}) + Pick(g, []string{"", "...", "..."}) + Pick(g, []string{"", " if v != \"\""}) + "}"
+		}
+		return "[for v in " + src + " : " + Pick(g, []string{"v", "var.a", "v.ab", `"${v}-x"`}) + Pick(g, []string{"", " if var.ab"}) + "]"
+	}
 	// collection / object constructors with nested (typed) expressions
 	if (t.IsListType() || t.IsSetType() || t.IsTupleType() || t.IsMapType() || t.IsObjectType()) && g.Chance(45) {
 		switch {
@@ -468,7 +494,7 @@ func (g G) exprOfType(t cty.Type, env exprEnv, depth int) string {
 			n := g.Int(0, 3)
 			var parts []string
 			for i := 0; i < n; i++ {
-				parts = append(parts, Pick(g, []string{"k1", `"k2"`, "k3"})+" = "+g.exprOfType(t.ElementType(), env, depth-1))
+				parts = append(parts, Pick(g, []string{"k1", `"k2"`, "k3", "k1", `"k2"`, "k3", "(var.a)", "( var.ab )", `"${var.ab}"`})+" = "+g.exprOfType(t.ElementType(), env, depth-1))
 			}
 			return "{ " + strings.Join(parts, ", ") + " }"
 		default:
@@ -480,6 +506,12 @@ func (g G) exprOfType(t cty.Type, env exprEnv, depth int) string {
 					k = quoteHCL(n)
 				}
 				parts = append(parts, k+" = "+g.exprOfType(ats[n], env, depth-1))
+			}
+			if g.Chance(15) || env.keyHeavy && g.Chance(35) {
+				// an item whose key is no literal name, anywhere among the known ones
+				k := Pick(g, []string{"(var.a)", "( var.ab )", `"${var.ab}"`, `("zz")`})
+				i := g.Int(0, len(parts))
+				parts = append(parts[:i], append([]string{k + " = " + Pick(g, []string{`"b"`, "1", "var.a"})}, parts[i:]...)...)
 			}
 			return "{ " + strings.Join(parts, ", ") + " }"
 		}
@@ -550,12 +582,12 @@ func (g G) exprOfType(t cty.Type, env exprEnv, depth int) string {
 		src := g.exprOfType(cty.List(cty.String), env, depth-1)
 		switch {
 		case t.IsMapType() || t.IsObjectType():
-			return "{for k, v in " + src + " : k => " + Pick(g, []string{"v", "var.a", "upper(v)"}) + Pick(g, []string{"", " if v != \"\""}) + "}"
+			return "{for k, v in " + src + " : k => " + Pick(g, []string{"v", "var.a", "upper(v)"}) + Pick(g, []string{"", "", "..."}) + Pick(g, []string{"", " if v != \"\""}) + "}"
 		default:
 			return "[for v in " + src + " : " + Pick(g, []string{"v", "var.a", "v.ab", `"${v}-x"`}) + Pick(g, []string{"", " if var.ab"}) + "]"
 		}
 	case 9: // index
-		return par(g.exprOfType(cty.List(t), env, depth-1)) + "[" + Pick(g, []string{"0", "var.a", "count.index", `"k"`}) + "]"
+		return par(g.exprOfType(cty.List(t), env, depth-1)) + "[" + Pick(g, []string{"0", "var.a", "count.index", `"k"`, "count.index + 1", "var.a % 2", "var.ab ? 0 : 1", "(1 + 1)"}) + "]"
 	default: // relative traversal after call
 		return g.callText(env, depth-1) + Pick(g, []string{".a", "[0]", ".a.b"})
 	}
@@ -600,8 +632,8 @@ func (g G) callText(env exprEnv, depth int) string {
 		name = strings.Replace(name, "::", Pick(g, []string{" :: ", ":: ", " ::", ":"}), 1)
 	}
 	s := name + "(" + strings.Join(args, sep)
-	if len(args) > 0 && g.Chance(8) {
-		s += Pick(g, []string{",", "..."})
+	if len(args) > 0 && g.Chance(45) {
+		s += Pick(g, []string{",", "...", "...", "...", "..."}) // trailing comma / expanded final argument
 	}
 	return s + ")"
 }
